@@ -31,6 +31,7 @@ func c13(c *core.Check) {
 	c13PadEdge(c)
 	c13FixedWidths(c)
 	c13SpacingCount(c)
+	c13ResumedRowShift(c)
 
 	r3 := c.Rule("R3", "the table layout code mirrors its side-symmetric assignments, sums margins, paddings and borders with consistent sides, and passes its named arguments in order", 8)
 	tfiles := map[string]bool{"tables.go": true}
@@ -1013,3 +1014,86 @@ func c13SpacingCount(c *core.Check) {
 		"the width of the table includes "+desc(prefAlways)+" spacing, tableLayout lays "+desc(layAlways)+": a column with no originating cell gets a spacing that the table's width does not contain, and the columns plus spacing overflow the table")
 }
 
+
+// c13ResumedRowShift: the cells of a row share their top edge also when the row is resumed on a new page under a
+// repeated header with collapsed borders.  The shift applied to a cell's PositionY in that case must be applied to
+// every cell of the resumed row: the condition that guards it tests the cell's resume stack *after* it was defaulted
+// (every cell of a resumed row has one: the recorded one, or "already finished"), never the raw lookup in the row's
+// resume stack, which is nil for the cells that were finished on the previous page.
+func c13ResumedRowShift(c *core.Check) {
+	p := c.Prog
+	r := c.Rule("R12", "cells of a resumed row share their top edge: in tableLayout the condition guarding an adjustment of a cell's PositionY inside the cell loop does not test a raw lookup of the row's resume stack by the cell's index (nil for the cells already finished) but the defaulted resume stack of the cell, which is set for every cell of a resumed row", 1)
+	n := 0
+	for _, fn := range p.FuncsOfPkg("html/layout") {
+		root := fn
+		for root.Parent() != nil {
+			root = root.Parent()
+		}
+		if root.Name() != "tableLayout" {
+			continue
+		}
+		fn := fn
+		core.Instrs(fn, func(in ssa.Instruction) {
+			st, ok := in.(*ssa.Store)
+			if !ok {
+				return
+			}
+			fa, ok := st.Addr.(*ssa.FieldAddr)
+			if !ok || core.FieldName(fa) != "PositionY" {
+				return
+			}
+			add, ok := st.Val.(*ssa.BinOp)
+			if !ok || add.Op != token.ADD {
+				return
+			}
+			// an increment of the same field
+			ld, ok := add.X.(*ssa.UnOp)
+			if !ok {
+				return
+			}
+			fa2, ok := ld.X.(*ssa.FieldAddr)
+			if !ok || fa2.Field != fa.Field || fa2.X != fa.X {
+				return
+			}
+			if core.InnermostLoop(fn, st.Block()) == nil {
+				return
+			}
+			// the nil tests that dominate the store
+			raw := ""
+			guarded := false
+			for _, a := range core.CondAtoms(fn) {
+				bo, ok := a.(*ssa.BinOp)
+				if !ok || (bo.Op != token.NEQ && bo.Op != token.EQL) {
+					continue
+				}
+				if k, isK := bo.Y.(*ssa.Const); !isK || k.Value != nil {
+					continue
+				}
+				if _, isMap := bo.X.Type().Underlying().(*types.Map); !isMap {
+					continue
+				}
+				g, _ := core.GuardedBy(fn, st.Block(), []ssa.Value{a}, func(m map[ssa.Value]bool) bool { return m[a] == (bo.Op == token.NEQ) })
+				if !g {
+					continue
+				}
+				guarded = true
+				switch x := bo.X.(type) {
+				case *ssa.Lookup:
+					raw = "a lookup in the row's resume stack"
+				case *ssa.Extract:
+					if _, isL := x.Tuple.(*ssa.Lookup); isL {
+						raw = "a lookup in the row's resume stack"
+					}
+				}
+			}
+			if !guarded {
+				return
+			}
+			n++
+			r.Cond(raw == "", "html/layout.tableLayout | shift of the cells of a resumed row", p.Pos(st.Pos()), "guarded by the cell's defaulted resume stack", "the shift is guarded by "+raw+" by the cell's index, which is nil for the cells that were finished on the previous page: only the continuing cells are shifted and the cells of the row no longer share their top edge")
+		})
+	}
+	if n == 0 {
+		r.Anchor("tableLayout: cell.PositionY += … under a test of the cell's resume stack")
+	}
+}
